@@ -37,6 +37,9 @@ def run(cx):
     # "or pinned at its minimum rate": the application's ceiling is clamped onto the rate, never the rate onto the ceiling
     from props.C13 import ceiling_clamp
     ceiling_clamp(cx, "C11.A")
+    # acknowledgements that arrive later than the forgetting horizon produce no feedback: the horizon is 4 RTT
+    from props.shared import forget_shape
+    forget_shape(cx, "C11.B")
     from props.shared import ack_processing_presence, dispatch_table
     ack_processing_presence(cx, "C11.h")
     dispatch_table(cx, "C11.i", only={"DataFrame", "SyncFrame", "AckFrame"})
